@@ -855,6 +855,10 @@ static const uint8_t *unmarshal_one_env(
             if (length == 0) {
                 janet_panic("invalid funcenv length");
             }
+            /* DOS check: every value takes at least one byte of input */
+            if ((int64_t) length > (int64_t)(st->end - data)) {
+                janet_panic("unexpected end of source");
+            }
             env->as.values = janet_malloc(sizeof(Janet) * (size_t) length);
             if (!env->as.values) {
                 JANET_OUT_OF_MEMORY;
@@ -940,6 +944,12 @@ static const uint8_t *unmarshal_one_def(
             defs_length = readnat(st, &data);
         if (def->flags & JANET_FUNCDEF_FLAG_HASSYMBOLMAP)
             symbolmap_length = readnat(st, &data);
+
+        /* DOS check: every entry of these vectors takes at least one byte of input */
+        if ((int64_t) constants_length + bytecode_length + environments_length +
+                defs_length + symbolmap_length > (int64_t)(st->end - data)) {
+            janet_panic("unexpected end of source");
+        }
 
         /* Check name and source (optional) */
         if (def->flags & JANET_FUNCDEF_FLAG_HASNAME) {
